@@ -237,26 +237,29 @@ Proof.
 Qed.
 
 (* the capacity stays below the bound the history implies *)
-Lemma gfw_k b n b1 m k : (zn (cap b) <= k)%Z -> grow_for_write (set_last b 0%Z) n = (b1, m) -> (zn (cap b1) <= grow_k k (zn n))%Z.
+Lemma gfw_k b n n' b1 m k mm : (zn (cap b) <= k)%Z -> (zn (blen b) <= mm)%Z -> (zn n <= n')%Z ->
+  grow_for_write (set_last b 0%Z) n = (b1, m) -> (zn (cap b1) <= grow_k k mm n')%Z.
 Proof.
-  intros Hk Hg. pose proof (grow_for_write_cap _ _ _ _ Hg) as H. change (cap (set_last b 0%Z)) with (cap b) in H.
-  pose proof (grow_k_mono _ _ (zn n) Hk). lia.
+  intros Hk Hm Hn Hg. pose proof (grow_for_write_cap _ _ _ _ Hg) as H.
+  change (cap (set_last b 0%Z)) with (cap b) in H. change (blen (set_last b 0%Z)) with (blen b) in H.
+  pose proof (grow_k_mono _ _ _ _ _ _ Hk Hm Hn). lia.
 Qed.
 
 Ltac cap_simple Hcap :=
   repeat match goal with |- context [if ?c then _ else _] => destruct c end;
   cbn [fst cap reset set_off set_last set_bytes]; try exact Hcap.
 
-Lemma cap_step g k b s o : (zn (cap b) <= k)%Z -> op_ok g k s o = true -> (zn (cap (fst (step b o))) <= next_k k o)%Z.
+Lemma cap_step g k b s o : R g b s -> (zn (cap b) <= k)%Z -> op_ok g k s o = true -> (zn (cap (fst (step b o))) <= next_k k s o)%Z.
 Proof.
-  intros Hcap Hok. unfold step. destruct o; cbn [step_gen next_k].
-  - destruct (grow_for_write (set_last b 0%Z) (length p)) as [b1 m] eqn:Eg. cbn [fst]. apply (gfw_k b _ b1 m k Hcap Eg).
-  - destruct (grow_for_write (set_last b 0%Z) (length p)) as [b1 m] eqn:Eg. cbn [fst]. apply (gfw_k b _ b1 m k Hcap Eg).
-  - destruct (grow_for_write (set_last b 0%Z) 1) as [b1 m] eqn:Eg. cbn [fst]. apply (gfw_k b 1 b1 m k Hcap Eg).
+  intros HR Hcap Hok. pose proof (R_len _ _ _ HR) as Hlen. pose proof HR as (HI & _).
+  assert (Hm : (zn (blen b) <= zn (length (un s)))%Z) by (rewrite Hlen; apply Z.le_refl).
+  unfold step. destruct o; cbn [step_gen next_k]; cbv zeta.
+  - destruct (grow_for_write (set_last b 0%Z) (length p)) as [b1 m] eqn:Eg. cbn [fst]. apply (gfw_k b _ _ b1 m k _ Hcap Hm (Z.le_refl _) Eg).
+  - destruct (grow_for_write (set_last b 0%Z) (length p)) as [b1 m] eqn:Eg. cbn [fst]. apply (gfw_k b _ _ b1 m k _ Hcap Hm (Z.le_refl _) Eg).
+  - destruct (grow_for_write (set_last b 0%Z) 1) as [b1 m] eqn:Eg. cbn [fst]. apply (gfw_k b 1 1%Z b1 m k _ Hcap Hm ltac:(cbn; lia) Eg).
   - unfold write_rune. destruct (rune_is_byte r).
-    + destruct (grow_for_write (set_last b 0%Z) 1) as [b1 m] eqn:Eg. cbn [fst].
-      pose proof (gfw_k b 1 b1 m k Hcap Eg) as H. unfold write_at, set_bytes; cbn [cap]. unfold grow_k, zn in *. lia.
-    + destruct (grow_for_write (set_last b 0%Z) 4) as [b1 m] eqn:Eg. cbn [fst]. apply (gfw_k b 4 b1 m k Hcap Eg).
+    + destruct (grow_for_write (set_last b 0%Z) 1) as [b1 m] eqn:Eg. cbn [fst]. apply (gfw_k b 1 4%Z b1 m k _ Hcap Hm ltac:(cbn; lia) Eg).
+    + destruct (grow_for_write (set_last b 0%Z) 4) as [b1 m] eqn:Eg. cbn [fst]. apply (gfw_k b 4 4%Z b1 m k _ Hcap Hm ltac:(cbn; lia) Eg).
   - cap_simple Hcap.
   - cap_simple Hcap.
   - destruct (decode_rune (live b)) as [r n]. cap_simple Hcap.
@@ -274,9 +277,9 @@ Proof.
     + apply Z.ltb_ge in Em. apply Z.leb_le in Hok.
       rewrite (too_large_false (reset_if_empty b) n) by (try rewrite cap_reset_if_empty; lia).
       destruct (grow b (Z.to_nat n)) as [b1 m] eqn:Eg. cbn [fst]. unfold set_bytes; cbn [cap].
-      pose proof (grow_cap _ _ _ _ Eg) as H. pose proof (grow_k_mono _ _ (zn (Z.to_nat n)) Hcap) as H2.
-      unfold zn in *. rewrite Z2Nat.id in * by lia. lia.
-  - (* ReadFrom *) apply (read_from_cap script (set_last b 0%Z) 0%Z k). exact Hcap.
+      pose proof (grow_cap _ _ _ _ Eg) as H.
+      pose proof (grow_k_mono _ _ _ _ (zn (Z.to_nat n)) n Hcap Hm ltac:(unfold zn; rewrite Z2Nat.id; lia)) as H2. lia.
+  - (* ReadFrom *) cbn [op_ok] in Hok. apply (read_from_cap script (set_last b 0%Z) 0%Z k _ HI Hok Hcap Hm).
   - cap_simple Hcap.
   - exact Hcap.
   - exact Hcap.
@@ -288,8 +291,8 @@ Qed.
 
 Lemma step_sim g k b s o : R g b s -> (zn (cap b) <= k)%Z -> op_ok g k s o = true ->
   snd (step b o) = snd (sstep s o) /\ R (next_g g o) (fst (step b o)) (fst (sstep s o)) /\
-  (zn (cap (fst (step b o))) <= next_k k o)%Z.
+  (zn (cap (fst (step b o))) <= next_k k s o)%Z.
 Proof.
   intros HR Hcap Hok. destruct (step_sim_core g k b s o HR Hcap Hok) as [A B].
-  split; [exact A|split; [exact B|apply (cap_step g k b s o Hcap Hok)]].
+  split; [exact A|split; [exact B|apply (cap_step g k b s o HR Hcap Hok)]].
 Qed.
